@@ -88,7 +88,7 @@ PROPS["C08"] = dict(
 PROPS["C04"] = dict(
     pkg="props/c04", level="exploration", engine="E-model", design_ref="§4 C04",
     technique="model-based PBT (rapid): generated writer programs (Write/WriteSync/Seek) and reader programs vs list-of-survivors oracle; every SeekNext start offset",
-    rule=("case = compression x write buffer {1,7,64,4096,4Mi} x read buffer {4,7,64,4096,4Mi} x {buffered, direct-I/O} factory; writer program of "
+    rule=("case = compression x write buffer {1,7,64,4096,4Mi} x read buffer {4,7,64,4096,4Mi} x {buffered, direct-I/O (buffers 4096/8192/65536; files on a disk file system - /var/tmp or VERIF_SCRATCH_DISK - when there is one, because tmpfs ignores the alignment rules of O_DIRECT), buffered write + direct-I/O read} factory; writer program of "
           "0..14 Write/WriteSync/Seek-back steps over nil/empty/patterned records (lengths around the buffers, 1024 and 4096 +-3; zero/0xff/0x91 fill, "
           "marker-laden, marker+partial header, ending in 0x91 / 0x91 0x8d / full marker) then Close; checks: offsets/Size/file length, sequential read + EOF, "
           "a generated ReadNext/SkipNext program, ReadNextAt at every returned offset, SeekNext from EVERY byte offset 0..size (files <= 8 KiB) or +-4 around every "
@@ -96,7 +96,7 @@ PROPS["C04"] = dict(
           "record crossing a 4096 boundary); distinct = distinct case JSON"),
     level_text=("Round trip through all three access paths against the list of surviving records, with SeekNext enumerated over every start offset of each "
                 "generated file. Exploration: the input/program/configuration space is unbounded."),
-    level_note="payloads never contain a complete valid record (marker+header with matching CRC32+body) - the format cannot tell that from a record; direct-I/O cases use block-multiple buffers, no Seek and records no larger than the buffer (documented experimental limits)",
+    level_note="payloads never contain a complete valid record (marker+header with matching CRC32+body) - the format cannot tell that from a record; direct-I/O cases use block-multiple buffers and no Seek (documented experimental limits); whether the scratch file system enforces O_DIRECT alignment is reported by the labels direct-io-on-disk-fs / direct-io-on-tmpfs-only",
     assumptions=COMMON_ASSUME,
     require_labels=["factory=buffered", "factory=direct", "seek-back", "record-crosses-4096", "comp=0", "comp=1", "comp=2", "comp=3"],
     quick=dict(shards=16, checks=100, shrink_s=15),
